@@ -12,6 +12,7 @@ pub mod c20;
 pub mod c18;
 pub mod find;
 pub mod rank;
+pub mod selftest;
 #[cfg(lucid_suggest_verif)]
 pub mod c16;
 #[cfg(lucid_suggest_verif)]
@@ -27,6 +28,9 @@ pub fn registry() -> Registry {
         props.push(c16::def());
         props.push(c17::def());
         props.push(c19::def());
+    }
+    if std::env::var("LSVERIF_SELFTEST").is_ok() {
+        props.extend(selftest::defs());
     }
     props.sort_by_key(|p| p.id);
     Registry { props }
